@@ -103,11 +103,18 @@ def do_dispatch(env, c):
         udp = None      # an earlier history killed the library's receive thread: deliver directly instead
     for f in list(OscFunc._all_func_proxies):
         f.free()
+    # isolation between histories: whatever an earlier history left registered in the dispatchers (only a
+    # defective free()/disable() does) must not take part in this one
+    for disp in (OscFunc._default_dispatcher, OscFunc._default_matching_dispatcher):
+        if disp.active or disp.wrapped_funcs:
+            disp.active.clear()
+            disp.wrapped_funcs.clear()
     CmdPeriod.free_servers = False
     off = int(env.SystemClock._elapsed_osc_offset)
     log = []
     rs = {}
 
+    flood = []
     deliveries = []      # the NetAddr object made for each dispatched message (one per message): its identity numbers the delivery
 
     def act(a):
@@ -120,6 +127,9 @@ def do_dispatch(env, c):
         count = [0]
 
         def cb(msg, time, addr, port):
+            if len(log) >= 300:     # runaway delivery (responders multiplying): stop feeding it, record 'flood'
+                flood.append(1)
+                return
             count[0] += 1
             if not any(addr is x for x in deliveries):
                 deliveries.append(addr)
@@ -184,10 +194,13 @@ def do_dispatch(env, c):
                     dg = bytes((oi._build_msg(0.0, py) if v['t'] == 'm' else oi._build_bundle(0.0, py)).dgram)
                 del log[:]
                 del deliveries[:]
+                del flood[:]
                 if udp:
                     out = udp.deliver(dg, (e['src']['h'], e['src']['p']), 20.0, port=env.ports[e['via']])
                 else:
                     out = oscrt.deliver(main, dg, (HOSTS[e['src']['h']], e['src']['p']), iface=env.ifaces[e['via']])
+                if flood and out == 'ok':
+                    out = 'flood'
                 rec = {'op': 'recv', 'dg': list(dg), 'src': e['src'], 'via': e['via'], 'out': out, 'log': list(log),
                        'off': list(off.to_bytes(8, 'big'))}
             else:
@@ -315,8 +328,12 @@ def main_():
     main = oscrt.init_rt()
     env = None
     out = []
+    prog = os.environ.get('VERIF_PROGRESS')
     for c in inp['cases']:
         k = c['kind']
+        if prog:
+            with open(prog, 'w') as f:
+                json.dump(c, f)
         if k == 'match':
             out.append(do_match(c))
         else:
